@@ -1,7 +1,27 @@
-From Coq Require Import List ZArith NArith Bool.
-Import ListNotations.
-Require Import FV.Gen.C02 FV.Base.PyVal FV.C01.Model FV.C02.Model.
+(* C02 - Valid values survive the wire encoding and the text encoding unchanged: property theorems.
+   d ranges over ALL datatype trees (any depth/width), v over all valid values (Lemmas.valid: the C01 value set in
+   canonical form, finite floats, distinct struct keys, required members present), C over every codec (CPython's
+   b64encode / "%g" / repr / literal_eval as functions), E over every tabulation of b64decode.
 
+   Full statement and what is proved here:
+   (wire)  export succeeds and import_value+validate on the node gives back a value equal (python ==) to v
+           -- C02_wire_roundtrip_partial: proved for all trees; the binary64 arithmetic of the numeric LEAF types
+              (double, int, scaled) enters as the hypothesis num_leaves num_rt (round trip of every valid value of each
+              numeric leaf type); it is false for scaled grids beyond 2^51 (C02_refuted_scaled_huge) and is exercised
+              by the correspondence on every generated case.  bool, enum, string, blob leaves and all containers
+              (arrays, tuples, structs incl. partial structs of the client side) are proved.
+   (json kind)  checked by Run.check_case (kind_ok, strict_json on the model's export) and by the oracle; no theorem.
+   (client) the client side type: refuted for strings with minchars>0 and no maxchars (C02_client_string_collapses,
+           C02_refuted_client_string); otherwise correspondence + oracle only.
+   (text)  refuted for 1-tuples (C02_one_tuple_text_refused), -0.0 (C02_refuted_negzero_text) and through
+           setParameterFromString for enum/blob/scaled (the C02_setparam theorems); otherwise correspondence + oracle only;
+           C02_setparam_exported_roundtrip shows that with export_value the text path reduces to the wire round trip. *)
+From Coq Require Import ZArith NArith Bool List.
+Import ListNotations.
+Require Import FV.Gen.C02 FV.Base.F64 FV.Base.PyVal FV.C01.Model FV.C01.Lemmas FV.C02.Model FV.C02.Run FV.C02.Lemmas
+  FV.C02.Refuted.
+
+(* obligations on the facts regenerated from /repo (Gen/C02.v) *)
 Theorem C02_source_facts :
   leaf_exports = true /\ container_exports = true /\ leaf_imports = true /\ container_imports = true /\
   generic_text_forms = true /\ leaf_text_forms = true /\ container_text_forms = true /\
@@ -11,3 +31,51 @@ Theorem C02_source_facts :
   cache_item_str_is_to_string = true /\ frames_are_plain_json = true.
 Proof. repeat split; reflexivity. Qed.
 Print Assumptions C02_source_facts.
+
+Theorem C02_wire_roundtrip_partial : forall E C, b64_law E C ->
+  forall d, num_leaves (num_rt E C) d -> forall v, valid d v = true ->
+  exists j w v', dt_export C d v = Ok j /\ dt_import E d j = Ok w /\ dt_validate d w PNone = Ok v' /\ py_eq v v' /\
+                 w <> PNone.
+Proof. exact wire_roundtrip. Qed.
+Print Assumptions C02_wire_roundtrip_partial.
+
+Theorem C02_setparam_exported_roundtrip : forall C E d t w,
+  b64_law E C -> num_leaves (num_rt E C) d -> from_string C d t = Ok w -> valid d w = true ->
+  exists v', set_from_string_exported C E d d t = Ok v' /\ py_eq w v'.
+Proof. exact setparam_exported_roundtrip. Qed.
+Print Assumptions C02_setparam_exported_roundtrip.
+
+Theorem C02_one_tuple_text_refused : forall C d1 t w,
+  lit_eval C t = Some w -> py_len w = None -> from_string C (TTuple [d1]) (PP [t]) = Err EWrongType.
+Proof. exact one_tuple_text_refused. Qed.
+Print Assumptions C02_one_tuple_text_refused.
+
+Theorem C02_setparam_enum_unserialisable : forall C E dc d t n z,
+  from_string C dc t = Ok (PEnum n z) -> set_from_string C E dc d t = Err EType.
+Proof. exact setparam_enum_unserialisable. Qed.
+Print Assumptions C02_setparam_enum_unserialisable.
+
+Theorem C02_setparam_bytes_unserialisable : forall C E dc d t b,
+  from_string C dc t = Ok (PBytes b) -> set_from_string C E dc d t = Err EType.
+Proof. exact setparam_bytes_unserialisable. Qed.
+Print Assumptions C02_setparam_bytes_unserialisable.
+
+Theorem C02_setparam_scaled_truncates : forall C E dc s mn mx t f,
+  from_string C dc t = Ok (PFloat f) ->
+  set_from_string C E dc (TScaled s mn mx) t = scaled_import E s (PFloat f) >>= fun v => scaled_validate s mn mx v.
+Proof. exact setparam_scaled_truncates. Qed.
+Print Assumptions C02_setparam_scaled_truncates.
+
+Theorem C02_client_string_collapses : forall minc u, minc <> 0%Z ->
+  client_of (TString minc UNLIMITED u) = Ok (TString minc minc u).
+Proof. exact client_string_collapses. Qed.
+Print Assumptions C02_client_string_collapses.
+
+(* non-vacuity: a nested type without numeric leaves satisfies every hypothesis of the round trip *)
+Definition demo_d : dtype :=
+  TStruct [([97%N], TArray (TEnum [([120%N], 1%Z); ([121%N], 2%Z)]) 0 3); ([98%N], TTuple [TBool; TString 0 5 false])]
+          [[98%N]] true.
+Definition demo_v : pyval := PDict [([97%N], PTuple [PEnum [121%N] 2; PEnum [120%N] 1])].
+Example C02_demo : valid demo_d demo_v = true /\ num_leaves (num_rt E0 C0) demo_d /\
+  res_same (dt_export C0 demo_d demo_v) (Ok (PDict [([97%N], PList [PInt 2; PInt 1])])) = true.
+Proof. split; [vm_compute; reflexivity|]. split; [cbn; tauto|vm_compute; reflexivity]. Qed.
